@@ -99,6 +99,7 @@ def main(argv=None):
     if tier == "thorough":
         os.environ.setdefault("VC_CVC5_MODE", "always")
         os.environ.setdefault("VC_IDENTITY_TIMEOUT", "60")
+        os.environ.setdefault("VERIF_OUTPUT_COVERAGE", "1")  # audit: result leaves no postcondition clause mentions
     seed = int(os.environ.get("VERIF_SEED", "0"))
     t0 = time.time()
     sys.path.insert(0, os.environ.get("VERIF_REPO", "/repo"))
@@ -181,6 +182,7 @@ def report(pid, tier, seed, mod, results, extra_results, t0, write=True):
     kernel_calls = {}
     selfcheck_pts = 0
     selfcheck_err = 0.0
+    uncovered = {}
     for r in sorted(results, key=lambda r: (r["contract"], r["instance"])):
         if r.get("error"):
             errors.append({"contract": r["contract"], "instance": r["instance"], "error": r["error"]})
@@ -201,6 +203,8 @@ def report(pid, tier, seed, mod, results, extra_results, t0, write=True):
         for k, v in r["kernel_calls"].items():
             kernel_calls[k] = kernel_calls.get(k, 0) + v
         inherited.update(re.sub(r"#\d+", "#", x) for x in r["inherited"])
+        for leaf in (r.get("audit") or {}).get("uncovered_outputs") or []:
+            uncovered.setdefault(r["contract"], set()).add(leaf)
         selfcheck_pts += r["selfcheck"].get("points", 0)
         selfcheck_err = max(selfcheck_err, r["selfcheck"].get("max_rel_err", 0.0))
         if len(samples) < 4:
@@ -295,6 +299,7 @@ def report(pid, tier, seed, mod, results, extra_results, t0, write=True):
         "kernel_axioms_used": kernel_calls,
         "jaxpr_primitives_interpreted": prims_seen,
         "selfcheck": {"points": selfcheck_pts, "max_rel_err": selfcheck_err},
+        "result_leaves_not_mentioned_by_any_postcondition(audit, thorough tier)": {k: sorted(v) for k, v in sorted(uncovered.items())},
         "known_finding_obligations": {p: h["count"] for p, h in known_hits.items()},
         "undecided": len(undecided),
         "samples": samples or [{"note": "no sample recorded"}],
